@@ -14,6 +14,7 @@
      AbandonedHandshakeClose      a first event other than websocket.connect is answered with
                                   close(1011)
      TypeCheckBeforeLostCheck     a wrong payload type wins over a disconnect only the pump saw
+                                  (also after a close() that found the client gone: why = "seen")
    Results carry cl = "P" (demanded by the property statement) or "D" (model detail). *)
 EXTENDS Integers, Sequences, TLC
 
@@ -140,11 +141,16 @@ Cleanup(x, ec, f) ==
     ELSE IF c.r = "server" /\ Att(x, f).kind = "badcode"                 \* server does not support the code: fallback
          THEN LET d == DoClose(c.w, 3011, 0, "none") IN H(d.w, c.evs \o d.evs, d.r = "server")
     ELSE H(c.w, c.evs, c.r = "server")
+(* a custom handler that returns without closing: the property still demands a close ("with and
+   without custom error handlers"); the framework is expected to clean up as for an unhandled
+   error, but the code it uses is left free (-1 matches any code) *)
+NoopHandlerStillCloses(x, ec, f) ==
+    LET c == Cleanup(x, ec, f) IN H(c.w, [i \in 1..Len(c.evs) |-> [c.evs[i] EXCEPT !.code = -1]], c.esc)
 Handle(x, exc, hs, hk, ec, f) ==
     CASE exc = "http" -> CloseWith(x, 3000 + hs, f)
       [] exc = "boom" /\ hk = "close" -> CloseWith(x, 4001, f)
       [] exc = "boom" /\ hk = "http"  -> CloseWith(x, 3400, f)
-      [] exc = "boom" /\ hk = "noop"  -> CloseWith(x, -1, f)      \* the property: a close is sent whatever the handler did; code free
+      [] exc = "boom" /\ hk = "noop"  -> NoopHandlerStillCloses(x, ec, f)
       [] OTHER -> Cleanup(x, ec, f)
 ExcOf(r) == IF r = "wsd" THEN "wsd" ELSE "py"
 
